@@ -373,11 +373,14 @@ def _is_bool_then(name):
     return isinstance(name, str) and 'bool' in name and name.split('::')[-1] in BOOL_THEN
 
 
-def _program_order(effs):
-    """effects in execution order: at the first level of the call chains where two effects differ, the block that can
-    reach the other (and not vice versa) comes first, reverse post-order otherwise; stable (rows of an unrolled table)"""
+def _program_order(effs, E=None):
+    """effects in execution order: at the first level of the call chains where two effects differ — another row of the same
+    unrolled table / decomposed pipeline: the earlier row first (the whole body runs for a row before the next row);
+    another call site: the block that can reach the other (and not vice versa) comes first, reverse post-order otherwise;
+    stable"""
     import functools
     cache = {}
+    rows = {}
 
     def info(fn):
         if fn.path not in cache:
@@ -386,10 +389,21 @@ def _program_order(effs):
         return cache[fn.path]
 
     def levels(e):
-        return [l.call for l in e.chain] + [e.call]
+        if id(e) not in rows:
+            lv = _levels(e)
+            rr = []
+            for li in range(len(lv)):
+                R = _level_row(E, lv, li) if E is not None else None
+                rr.append((lv[li][0], R.site if R is not None else None, R.index if R is not None else None))
+            rows[id(e)] = rr
+        return rows[id(e)]
 
     def cmp(x, y):
-        for a, b in zip(levels(x), levels(y)):
+        for (a, sa, ra), (b, sb, rb) in zip(levels(x), levels(y)):
+            if sa is not None and sa == sb and ra != rb:
+                if ra is None or rb is None:
+                    return 0
+                return -1 if ra < rb else 1
             if a is b:
                 continue
             if a.fn is not b.fn or a.bb == b.bb:
@@ -428,6 +442,9 @@ def _sink_kind(c):
     return None
 
 
+FN_CALL = ('std::ops::Fn::call', 'std::ops::FnMut::call_mut', 'std::ops::FnOnce::call_once')
+
+
 def _sink_effects(prog, sl):
     from .lib.effects import Effects, Eff
 
@@ -437,6 +454,15 @@ def _sink_effects(prog, sl):
 
         def _expand_call1(self, fn, c, forall, mode, mapping, chain, stack, out):
             k = _sink_kind(c)
+            if k is None and not c.indirect and c.decl in FN_CALL and len(c.args) == 2:
+                # a local closure called directly (`let mut emit = |flag, word| ..; emit(x.detach, "--detach")`) is a private
+                # helper: its body runs with the parameters bound to the arguments
+                clv = strip(self.slicer.operand(fn, c.args[0]))
+                tup = strip(self.slicer.operand(fn, c.args[1]))
+                g, off = self._closure_fn(clv)
+                if g is not None and off == 1 and tup[0] == 'tuple':
+                    self._expand_closure(fn, c, clv, list(tup[1]), forall, mode, mapping, chain, stack, out)
+                    return
             if k is None:
                 return Effects._expand_call1(self, fn, c, forall, mode, mapping, chain, stack, out)
             args = tuple(self.subst(self.slicer.operand(fn, a), mapping) for a in c.args)
@@ -550,6 +576,310 @@ def _vec_other_writers(fn, m):
     return bad
 
 
+def _unrolled_loop(E, call, m):
+    """the loop around `call` that the expansion unrolled at this level (its element is bound to one row of a literal
+    table / chain by m['__repl__']), else None"""
+    from .lib import iters
+    keys = [k for k, _ in (m or {}).get('__repl__', ())]
+    if not keys:
+        return None
+    best = None
+    for L in E.loops(call.fn):
+        if call.bb in L.body and call.bb != L.header and L.collection is not None:
+            if best is None or len(L.body) < len(best.body):
+                best = L
+    if best is None or iters.loop_key(best.collection) not in keys:
+        return None
+    return best
+
+
+# ---- per-element tests of an iterator pipeline ------------------------------------------------------------------------
+# lib.iters.alts says *that* an alternative is filtered; for an argv the question is *under which condition on the
+# struct's fields* a row of a table is emitted: `[(flag, "--x")..].into_iter().filter(|(on, _)| *on)`,
+# `.filter_map(|(o, v)| v.map(|v| (o, v)))`, `.filter_map(|(on, w)| on.then_some(w))` state the same thing as
+# `if flag { .. }` / `if let Some(v) = v { .. }` inside a loop over the table.
+
+def _alts_conds(sl, v, depth=0):
+    from .lib import iters
+    from .lib.value import canon
+    IT = iters.IT
+    rec = lambda x: _alts_conds(sl, x, depth + 1)
+    plain = lambda: [(e, f, fl, None if fl else []) for e, f, fl in iters.alts(sl, v, depth)]
+    if depth > 8 or not isinstance(v, tuple) or not v:
+        return plain()
+    k = v[0]
+    if k in ('unwrap', 'updated'):
+        inner = iters.alts(sl, v[1], depth + 1)
+        if not (len(inner) == 1 and inner[0][1] is not None and canon(inner[0][1]) == canon(v[1])):
+            return rec(v[1])
+        return plain()
+    if k == 'phi':
+        out = []
+        for x in v[1]:
+            out.extend(rec(x))
+        return out
+    if k == 'call' and v[2]:
+        name, args = v[1], v[2]
+        if name == IT + 'chain' and len(args) == 2:
+            return rec(args[0]) + rec(args[1])
+        if name in iters.SAME or name in iters.COLLECTING:
+            return rec(args[0])
+        if name == IT + 'filter' and len(args) == 2:
+            out = []
+            for e, f, fl, cs in rec(args[0]):
+                r = sl.apply_closure(args[1], (e,)) if f is None else None
+                out.append((e, f, iters._fl(fl, True), cs + [('true', r)] if (cs is not None and r is not None) else None))
+            return out
+        if name == IT + 'map' and len(args) == 2:
+            out = []
+            for e, f, fl, cs in rec(args[0]):
+                r = sl.apply_closure(args[1], (e,))
+                out.append((r if r is not None else ('call', 'closure-result', (args[1], e), None), f, fl, cs))
+            return out
+        if name == IT + 'filter_map' and len(args) == 2:
+            out = []
+            for e, f, fl, cs in rec(args[0]):
+                r = sl.apply_closure(args[1], (e,))
+                ok = cs is not None and r is not None and f is None
+                out.append((('unwrap', r) if r is not None else ('unknown', 'filter_map'), f, iters._fl(fl, True), cs + [('some', r)] if ok else None))
+            return out
+        if name == IT + 'flat_map' and len(args) == 2:
+            out = []
+            for e, f, fl, cs in rec(args[0]):
+                r = sl.apply_closure(args[1], (e,))
+                if r is None:
+                    return plain()
+                for e2, f2, fl2, cs2 in rec(r):
+                    both = f is not None and f2 is not None
+                    out.append((e2, f if f is not None else f2, iters._fl(fl, fl2, both), cs + cs2 if (cs is not None and cs2 is not None and not both) else None))
+            return out
+        if name == IT + 'flatten' and len(args) == 1:
+            out = []
+            for e, f, fl, cs in rec(args[0]):
+                for e2, f2, fl2, cs2 in rec(e):
+                    out.append((e2, f if f is not None else f2, iters._fl(fl, fl2), cs + cs2 if (cs is not None and cs2 is not None) else None))
+            return out
+        if iters._is_source(name) and len(args) == 1 and name.endswith(iters.SAME_ELEMS):
+            return rec(args[0])
+    return plain()
+
+
+def alts_conds(sl, v):
+    """lib.iters.alts(sl, v) with a 4th component per alternative: the per-element tests of the `filter` / `filter_map`
+    stages the element has passed, [('true', bool value) | ('some', option value)] — [] for an unfiltered alternative, None
+    when the alternative is filtered in a way that is not a test of this one element (positional adapters, a test on the
+    elements of a collection, zip).  Same alternatives in the same order as lib.iters.alts (checked)."""
+    from .lib import iters
+    from .lib.value import canon
+    base = iters.alts(sl, v)
+    try:
+        mine = _alts_conds(sl, v)
+    except Exception:
+        mine = None
+    same = mine is not None and len(mine) == len(base) and all(
+        canon(a[0]) == canon(b[0]) and bool(a[2]) == bool(b[2]) and (a[1] is None) == (b[1] is None) for a, b in zip(mine, base))
+    if not same:
+        return [(e, f, fl, None if fl else []) for e, f, fl in base]
+    return [(e, f, fl, cs if (cs is not None and (fl or not cs)) else (None if fl else [])) for e, f, fl, cs in mine]
+
+
+_OPT_VIEWS = ('as_deref', 'as_ref', 'as_mut', 'as_deref_mut', 'cloned', 'copied', 'clone', 'take', 'inspect')
+_OPT = ('std::option::Option::', 'std::option::Option::<')
+
+
+def _is_opt_call(v, *short):
+    return v[0] == 'call' and isinstance(v[1], str) and v[1].startswith('std::option::Option') and v[1].split('::')[-1] in short
+
+
+def _test_conds(sl, kind, v, fn, depth=0):
+    """a per-element test as conditions on fields of the struct converted by fn: [(field, outcome) | (UNKNOWN, text)]"""
+    from .lib.value import vstr
+    v = strip(v)
+    unknown = [(UNKNOWN, ('%s %s' % (kind, vstr(v)))[:60])]
+    if depth > 6:
+        return unknown
+    if kind == 'true' or kind == 'false':
+        want = kind == 'true'
+        while v[0] == 'un' and v[1] == 'Not' and len(v) > 2:
+            v, want = strip(v[2]), not want
+        if v[0] == 'const' and isinstance(v[1], bool):
+            return [] if v[1] == want else [(UNKNOWN, 'never')]
+        fld = _exact_field(v, fn)
+        if fld is not None:
+            return [(fld, want)]
+        if want and _is_opt_call(v, 'is_some') and len(v[2]) == 1:
+            return _test_conds(sl, 'some', v[2][0], fn, depth + 1)
+        if not want and _is_opt_call(v, 'is_none') and len(v[2]) == 1:
+            return _test_conds(sl, 'some', v[2][0], fn, depth + 1)
+        return unknown
+    # kind == 'some'
+    while _is_opt_call(v, *_OPT_VIEWS) and len(v[2]) == 1:
+        v = strip(v[2][0])
+    fld = _exact_field(v, fn)
+    if fld is not None:
+        return [(fld, ['Some'])]
+    if v[0] == 'agg' and v[1] == 'std::option::Option':
+        return [] if v[2] == 'Some' else [(UNKNOWN, 'never')]
+    if _is_opt_call(v, 'map', 'inspect') and len(v[2]) == 2:
+        return _test_conds(sl, 'some', v[2][0], fn, depth + 1)
+    if _is_opt_call(v, 'and_then') and len(v[2]) == 2:
+        r = sl.apply_closure(v[2][1], (sl.mk_unwrap(v[2][0], 1),))
+        if r is not None:
+            return _test_conds(sl, 'some', v[2][0], fn, depth + 1) + _test_conds(sl, 'some', r, fn, depth + 1)
+        return unknown
+    if _is_opt_call(v, 'filter') and len(v[2]) == 2:
+        r = sl.apply_closure(v[2][1], (sl.mk_unwrap(v[2][0], 1),))
+        if r is not None:
+            return _test_conds(sl, 'some', v[2][0], fn, depth + 1) + _test_conds(sl, 'true', r, fn, depth + 1)
+        return unknown
+    if v[0] == 'call' and _is_bool_then(v[1]) and len(v[2]) == 2:
+        return _test_conds(sl, 'true', v[2][0], fn, depth + 1)
+    return unknown
+
+
+def _simplify(sl, v, depth=0):
+    """payloads in normal form: `unwrap(opt.map(f))` is f(unwrap(opt)), `unwrap(flag.then_some(w))` is w, projections of
+    the tuples / aggregates that appear are re-normalised — the word a row of a filtered table contributes"""
+    if not isinstance(v, tuple) or not v or depth > 12 or not isinstance(v[0], str):
+        return v
+    if v[0] in ('const', 'param', 'fnitem', 'constitem', 'unknown', 'closure_env', 'closure', 'upvar'):
+        return v
+    nv = tuple(_simplify(sl, x, depth + 1) if isinstance(x, tuple) else x for x in v)
+    if nv[0] == 'unwrap' and len(nv) == 2 and isinstance(nv[1], tuple) and nv[1]:
+        x = nv[1]
+        while _is_opt_call(x, 'as_deref', 'as_ref', 'cloned', 'copied') and len(x[2]) == 1 and x[2][0][0] == 'call':
+            x = x[2][0]
+        if x[0] == 'call' and _is_bool_then(x[1]) and len(x[2]) == 2:
+            w = x[2][1] if x[1].endswith('then_some') else sl.apply_closure(x[2][1], ())
+            if w is not None:
+                return _simplify(sl, w, depth + 1)
+        if x[0] == 'call' and len(x[2]) == 2 and x[2][1][0] in ('closure', 'fnitem') and (x[1] in sl.MAP_LIKE or x[1] in sl.AND_THEN):
+            r = sl.mk_unwrap(x, 1)
+            if r != ('unwrap', x):
+                return _simplify(sl, r, depth + 1)
+        if x[0] == 'agg' and x[1] == 'std::option::Option' and x[2] == 'Some' and len(x[3]) == 1:
+            return x[3][0][1]
+    if nv[0] == 'field' and len(nv) == 3 and isinstance(nv[1], tuple) and nv[1] and nv[1][0] in ('agg', 'tuple'):
+        return sl._field(nv[1], nv[2])
+    return nv
+
+
+def _levels(e):
+    from .lib.effects import Link
+    return [(l.call, l.mapping or {}) for l in e.chain if isinstance(l, Link)] + [(e.call, e.mapping or {})]
+
+
+class _Row:
+    """the element of a decomposed iteration (row of a literal table, alternative of a chain / pipeline) that one level of
+    an effect's call chain is bound to: .alts (alts_conds of the iterated value), .index (position of the row among them,
+    None when it cannot be told), .loop (the unrolled `for` loop, None for a closure run by an adapter / consumer),
+    .site (identity of the iteration)"""
+    __slots__ = ('alts', 'index', 'loop', 'site', 'm')
+
+    def __init__(self, alts, index, loop, site, m):
+        self.alts, self.index, self.loop, self.site, self.m = alts, index, loop, site, m
+
+
+def _cached_alts(E, key, v):
+    cache = E.__dict__.setdefault('_c16_alts', {})
+    if key not in cache:
+        cache[key] = alts_conds(E.slicer, v)
+    return cache[key]
+
+
+def _row_index(E, mine, bound, m):
+    from .lib.value import canon
+    for b in bound:
+        if b is None:
+            continue
+        cb = canon(b)
+        hit = [i for i, a in enumerate(mine) if canon(E.subst(a[0], m)) == cb]
+        if hit:
+            # identical rows contribute identical words under identical tests only if their tests agree
+            tests = [None if mine[i][3] is None else [(k, canon(E.subst(v, m))) for k, v in mine[i][3]] for i in hit]
+            if any(t != tests[0] for t in tests[1:]):
+                return None
+            return hit[0]
+    return None
+
+
+def _level_row(E, levels, li):
+    """_Row for level li of a call chain, None when that level is not an iteration over a decomposed value"""
+    from .lib import iters
+    sl = E.slicer
+    call, m = levels[li]
+    L = _unrolled_loop(E, call, m)
+    if L is not None:
+        nkey = iters.loop_key(L.collection)
+        mine = _cached_alts(E, ('loop', call.fn.path, L.header), L.collection)
+        bound = [val for k, val in m.get('__repl__', ()) if k == nkey][-1:]
+        return _Row(mine, _row_index(E, mine, bound, m), L, ('loop', call.fn.path, L.header), m)
+    if li + 1 < len(levels) and not call.indirect and (call.decl or '').startswith('std::iter::') and call.args:
+        g = levels[li + 1][0].fn
+        d = call.decl
+        if g.kind == 'Closure' and (d in iters.LAZY_WITH_CLOSURE or d in iters.CONSUME_EACH or d in iters.CONSUME_ALL):
+            ridx = 1 if d == 'std::iter::Extend::extend' else 0
+            if ridx < len(call.args):
+                recv = sl.operand(call.fn, call.args[ridx])
+                mine = _cached_alts(E, ('iter', call.fn.path, call.bb, ridx), recv)
+                if iters.trivial([a[:3] for a in mine], recv):
+                    return None
+                nm = levels[li + 1][1]
+                # the closure-level binding is already substituted with m
+                bound = [nm.get((g.path, k)) for k in (1, 2)]
+                return _Row(mine, _row_index(E, mine, bound, m), None, ('iter', call.fn.path, call.bb), m)
+    return None
+
+
+def _row_tests(E, row):
+    """tests under which the row is visited whenever the iteration is: [('true'|'some', value in the entry function's
+    terms) | (UNKNOWN, why)]"""
+    if not any(fl for _, _, fl, _ in row.alts):
+        return []
+    if row.index is None or row.alts[row.index][3] is None:
+        return [(UNKNOWN, 'filtered iteration')]
+    return [(k, E.subst(v, row.m)) for k, v in row.alts[row.index][3]]
+
+
+def _level_guards(E, e):
+    """lib.effects.guards_of plus, as entries with a 4th component `row`, what the guards do not say:
+      * the `next()` test of a `for` loop that was unrolled at a level of the chain (a loop over a literal table: the
+        effect stands for one row, with the row substituted) is not a loop marker; it carries the tests under which this
+        row is visited whenever the loop is entered — none when the loop is left by exhaustion only and the row is not
+        filtered, the `filter` / `filter_map` tests of the row, or (UNKNOWN, why);
+      * for a closure run by an iterator adapter / consumer (`.for_each(|row| ..)`) an entry (None, [], None, row) with the
+        tests of the pipeline's filter stages for the element the closure is bound to.
+    row = [('true'|'some', value in the entry function's terms) | (UNKNOWN, why)], None for ordinary conditions"""
+    from .lib import iters
+    from .lib.guards import conditions_ctx
+    from .lib.value import canon
+    sl = E.slicer
+    out = []
+    levels = _levels(e)
+    for li, (call, m) in enumerate(levels):
+        R = _level_row(E, levels, li)
+        L = R.loop if R is not None else None
+        nkey = iters.loop_key(L.collection) if L is not None else None
+        for cd in conditions_ctx(E.prog, call.fn, call.bb, sl):
+            views = [(E.subst(v, m), oc) for v, oc in cd.views()] if cd.kind == 'bool' else [(E.subst(cd.value, m), cd.outcome)]
+            subj = E.subst(cd.subject, m) if cd.subject is not None else None
+            row = None
+            if L is not None and cd.kind == 'variant' and cd.subject is not None and 'Some' in cd.outcome and \
+                    canon(('unwrap', strip(cd.subject))) == nkey:
+                row = []
+                f = call.fn
+                exits = {b for b in L.exit_bb if f.blocks[b]['t']['t'] != 'unreachable'}
+                if getattr(L, 'exhaust', None) is None or exits != {L.exhaust[1]}:
+                    row.append((UNKNOWN, 'a loop over a table that can be left before its last row'))
+                row.extend(_row_tests(E, R))
+            out.append((cd, views, subj, row))
+        if R is not None and L is None:
+            row = _row_tests(E, R)
+            if row:
+                out.append((None, [], None, row))
+    return out
+
+
 def argv_model(prog, sl, fn):
     """-> (program, [Item]) with one lib.cmdmodel.Item per argv word (elems has one entry, classified as lib.cmdmodel
     does: ('const', s) | ('field', name, 'direct'|'fmt'|'elem'|'splat', template) | ('other', text)).
@@ -560,11 +890,11 @@ def argv_model(prog, sl, fn):
     a model without such entries."""
     from .lib import iters
     from .lib.cmdmodel import Item, classify
-    from .lib.effects import guards_of
     from .lib.value import vstr
     E = _sink_effects(prog, sl)
     kinds = ('CMD_NEW', 'CMD_ARG', 'CMD_ARGS', 'VEC_PUSH', 'VEC_EXTEND')
-    effs = _program_order([e for e in E.expand(fn, 'may') if e.kind in kinds and e.call is not None])
+    raw = E.expand(fn, 'may')
+    effs = _program_order([e for e in raw if e.kind in kinds and e.call is not None], E)
     program = None
     items = []
     vec_effs = {}
@@ -579,6 +909,7 @@ def argv_model(prog, sl, fn):
             main.append(e)
 
     def cls(v):
+        v = _simplify(sl, v)
         el = classify(fn, v)
         if el[0] == 'other':
             iv = sl.inline_deep(v)
@@ -596,7 +927,16 @@ def argv_model(prog, sl, fn):
 
     def context(e):
         conds, loop = [], None
-        for cd, views, subj in guards_of(E, e):
+        for cd, views, subj, row in _level_guards(E, e):
+            if row is not None:
+                # the `next()` test of a loop over a literal table that was unrolled: this word is the one of the row bound
+                # at this level (values substituted), not "one word per element" — provided the row is visited; and the
+                # tests of filtering adapters for the element a closure was run for
+                for r in row:
+                    for c in ([r] if r[0] == UNKNOWN else _test_conds(sl, r[0], r[1], fn)):
+                        if c not in conds:
+                            conds.append(c)
+                continue
             if cd.kind == 'bool':
                 hit = next(((_exact_field(v, fn), oc) for v, oc in views if _exact_field(v, fn) is not None), None)
                 conds.append(hit if hit is not None else (UNKNOWN, vstr(views[0][0])[:60]))
@@ -634,8 +974,8 @@ def argv_model(prog, sl, fn):
             for x in pay[1]:
                 add(e, cls(x), conds, loop)
             return
-        al = iters.alts(sl, pay)
-        for elem, fa, filtered in al:
+        al = alts_conds(sl, pay)
+        for elem, fa, filtered, tests in al:
             extra, lp, el = [], loop, None
             if fa is not None:
                 f0 = strip(fa)
@@ -654,8 +994,12 @@ def argv_model(prog, sl, fn):
                         el = ('field', el[1], 'splat', None) if el[0] == 'field' else el
                     else:
                         lp = fld if loop is None else UNKNOWN
-            if filtered:
+            if filtered and tests is None:
                 extra.append((UNKNOWN, 'filtered iteration'))
+            elif filtered:
+                # a row of a literal table behind `filter` / `filter_map`: emitted iff its own tests hold
+                for k, tv in tests:
+                    extra.extend(c for c in _test_conds(sl, k, tv, fn) if c not in extra)
             add(e, el if el is not None else cls(elem), conds + extra, lp)
 
     spliced = set()
@@ -687,6 +1031,10 @@ def argv_model(prog, sl, fn):
                 items.append(Item('args', [('other', 'the vector is handed to Command::args conditionally')], conds, loop, e.call))
             continue
         contribute(e, e.args[1], True)
+    for e in raw:
+        if e.kind == 'CALLBACK' and e.call is not None:
+            # a function value the expansion could not enter may add words of its own
+            items.append(Item('args', [('other', 'a call through a function value at %s' % e.call.where())], [], None, e.call))
     for key, es in vec_effs.items():
         if key not in spliced:
             ty = prog.fns[key[0]].local_ty(key[1]) if key[1] is not None else 'String'
